@@ -447,6 +447,8 @@ def run(rep, tier):
     udr = driver.load_units([common.src_unit("src/proto/dns_resolv.c")])
     rep.use_units(udr)
     c13_audit.cache_type_flag_rule(rep, udr["src/proto/dns_resolv.c"])
+    c13_audit.queued_task_rule(rep, udr["src/proto/dns_resolv.c"])
+    rep.floor("SDP scan byte classes", c13_audit.sdp_high_byte_rule(rep, us["proto/sdp.h"]), 4)
     usap = driver.load_units([common.src_unit("src/proto/sap_rcvr.c")])["src/proto/sap_rcvr.c"]
     rep.floor("terminated receive buffers", c13_audit.terminator_room_rule(rep, usap, "src/proto/sap_rcvr.c"), 1)
     # request line: the components returned are sub-spans of the target (rule lives in C20)
